@@ -1,7 +1,8 @@
 (* Extraction of the C20 model (ExtrOcamlBasic only; N/Z/nat stay Coq datatypes). *)
-From Verif Require Import HtmlModel.
+From Verif Require Import HtmlModel HtmlSkel.
 Require Extraction ExtrOcamlBasic.
 Extraction Language OCaml.
 Extraction "model.ml" site_out faithful_cfg conformant_cfg cfg_docs_escaped sink_is_text unescape html_escape
   markupsafe_escape autoescape_selected html_template_names filter_tag_id filter_url_from_type filter_make_unique
-  filter_namespace_doc ung_reset scan wf_tokens no_markup no_special.
+  filter_namespace_doc ung_reset scan wf_tokens no_markup no_special url_links_service
+  all_dsdl_text_sinks_escaped table_balanced html_skeletons unsafe_sites.
